@@ -7,7 +7,9 @@ TRUSTED = ['Go stdlib: strconv.Itoa, strings.ToLower/Join on ASCII, net/http.Hea
 ASSUMPTIONS = ['header names are ASCII (Go applies Unicode case mapping to other names; not modelled)',
                'the signer has a non-empty certificate list (cert-sha256 present), as this implementation only supports cert-url signatures']
 RULE = ('sxg.msg / sxg.hdr / sxg.write / sxg.sign.mock over versions x URLs x validity URLs x dates {0, negative, 2^31, 2^62, random} x header sets (0..70 entries, every CBOR length class of names/values, '
-        'mixed case, multi-valued, duplicate after case folding) x statuses x methods x certificates; distinct = distinct op lines')
+        'mixed case, multi-valued, duplicate after case folding) x statuses x methods x certificates; '
+        'digest-header names of either MI draft present / absent / both under every version (integrity parameter follows the version only); signer certificate lists over '
+        '{root, intermediate, leaf, leaf with CA:FALSE, unrelated CA, self-signed leaf} in every order (cert-sha256 = hash of the first); distinct = distinct op lines')
 EXHAUSTIVE = {}
 
 agree = Base.agree; nontrivial = Base.nontrivial; signature = Base.signature; explain = Base.explain
@@ -25,6 +27,77 @@ def big_headers(rng, n, vlen):
     for i in range(n):
         add(d, b'x-h%d' % i, bytes(rng.choice(b'abcdefgh ,;') for _ in range(vlen)))
     return d
+
+
+DIGESTISH = [b'Digest', b'digest', b'DIGEST', b'Mi-Draft2', b'MI-Draft2', b'mi-draft2', b'MI', b'Want-Digest', b'Content-Digest', b'Repr-Digest', b'Integrity']
+DIGVALS = [b'sha-256=X48E9qOokqqrvdts8nOJRJN3OWDUoyWxBf7kbu9DBPE=', b'mi-sha256-03=dcRDgR2GM35DluAV13PzgnG6+pvQwPywfFvAu1UeFrs=', b'mi-sha256-draft2=dcRDgR2GM35DluAV13PzgnG6-pvQwPywfFvAu1UeFrs', b'']
+CODINGS = [b'mi-sha256-03', b'mi-sha256-draft2', b'gzip']
+
+
+def integrity_name_sets():
+    """header sets (lists of (name, [values]), keys stored as spelled) in which zero, one or both of the digest header names of the MI
+    drafts occur, in several spellings, with the value forms of either draft / of RFC 3230 / empty, with and without a content coding"""
+    sets = [[]]
+    for i, n in enumerate(DIGESTISH):
+        sets.append([(n, [DIGVALS[i % len(DIGVALS)]])])
+        sets.append([(n, [DIGVALS[(i + 1) % len(DIGVALS)]]), (b'Content-Encoding', [CODINGS[i % len(CODINGS)]])])
+    for v in DIGVALS:
+        sets.append([(b'Digest', [v])])
+        sets.append([(b'Mi-Draft2', [v])])
+        sets.append([(b'Digest', [v]), (b'Mi-Draft2', [DIGVALS[2]])])
+        sets.append([(b'Mi-Draft2', [v]), (b'Digest', [DIGVALS[0]]), (b'X-Other', [b'1'])])
+    sets.append([(b'Digest', [DIGVALS[0], DIGVALS[1]])])
+    sets.append([(b'Mi-Draft2', [DIGVALS[2], DIGVALS[2]])])
+    sets.append([(b'X-Other', [b'1'])])
+    return sets
+
+
+def integrity_name_ops(w):
+    ops = []
+    cu, vu = hexs(b'https://example.com/cert.msg'), hexs(b'https://example.com/v')
+    for ver in VERS:
+        for j, rs in enumerate(integrity_name_sets()):
+            e = ex(ver, b'https://example.com/', b'GET', [], 200, [(b'Content-Type', [b'text/html'])] + rs, b'', b'payload')
+            ops += [f'sxg.sign.mock {exs(e)} {w.keys[j % 2]["cert"]} {cu} {vu} 1517418800 1517422400', f'sxg.hdr {exs(e)}']
+            if ver != 'b3' and j % 3 == 0:      # the same names among the request headers (b1 / b2 sign them)
+                e = ex(ver, b'https://example.com/', b'GET', rs, 200, [(b'Content-Type', [b'text/html'])], b'', b'payload')
+                ops += [f'sxg.sign.mock {exs(e)} {w.keys[0]["cert"]} {cu} {vu} 1517418800 1517422400']
+    return ops
+
+
+def chain_shapes(kinds):
+    """certificate LISTS over the kinds of certificate a chain file can contain (kinds: dict name -> DER hex): every single one, every
+    ordered pair, every order of the real hierarchy (with either kind of leaf) and of an unrelated trio, longer lists, repetitions"""
+    import itertools as it
+    n = list(kinds)
+    shapes = [[a] for a in n] + [list(p) for p in it.permutations(n, 2)]
+    for trio in (('root', 'inter', 'leaf'), ('root', 'inter', 'leafbc'), ('selfca', 'root', 'leaf2'), ('inter', 'leafbc', 'leaf')):
+        shapes += [list(p) for p in it.permutations(trio)]
+    shapes += [['root', 'inter', 'selfca', 'leaf'], ['inter', 'root', 'leafbc', 'leaf'], ['leaf', 'inter', 'root', 'selfca'], ['selfca', 'root', 'inter', 'leafbc', 'leaf', 'leaf2'],
+               ['root', 'root', 'leaf'], ['leaf', 'leaf'], ['inter', 'inter'], ['root', 'leaf', 'root']]
+    return shapes
+
+
+def chain_stage(ctx):
+    """signers whose certificate list has several certificates: cert-sha256 -- in the Signature header and in the signed message -- is the
+    hash of the FIRST certificate, whether that is a leaf, an intermediate or a root, and whatever comes after it"""
+    r = ctx.go([f'setup.chain {hexs(b"example.com,www.example.com")}'])[0]
+    if not (r and r.startswith('ok ') and len(r.split(' ')) == 7):
+        ctx.infra.append(f'setup.chain failed: {str(r)[:80]}')
+        return
+    kinds = dict(zip(['root', 'inter', 'leaf', 'leafbc', 'selfca', 'leaf2'], r.split(' ')[1:]))
+    cu, vu = hexs(b'https://example.com/cert.msg'), b'https://example.com/v'
+    ops, dops, mops = [], [], []
+    for ver in VERS:
+        e = ex(ver, b'https://example.com/', b'GET', [], 200, [(b'Content-Type', [b'text/html'])], b'', b'payload')
+        for sh in chain_shapes(kinds):
+            cl = ','.join(kinds[x] for x in sh)
+            ops.append(f'sxg.sign.mock.chain {exs(e)} {cl} {cu} {hexs(vu)} 1517418800 1517422400')
+            dops.append(f'sxg.dumpmsg.chain {exs(e)} {cl} {cu} {hexs(vu)} 1517418800 1517422400')
+            mops.append(f'sxg.msg {exs(e)} {H(kinds[sh[0]])} {hexs(vu)} 1517418800 1517422400')
+    ctx.both(ops)
+    for d, g, m in zip(dops, ctx.go(dops), ctx.model(mops)):
+        ctx.records.append((d, g, m))
 
 
 def run(ctx):
@@ -93,6 +166,10 @@ def run(ctx):
         for st in [0, 99, 100, 599, 1000, -1, 2**31]:
             e = ex(ver, b'https://example.com/', rng.choice([b'GET', b'POST', b'']), [], st, [])
             ops += [f'sxg.hdr {exs(e)}', f'sxg.msg {exs(e)} {"bb" * 32} - 5 10']
+    # response (and request) headers that NAME an integrity scheme or a digest, under EVERY version: the `integrity` parameter -- like the
+    # rest of the Signature header -- is a function of the format version alone, whichever digest headers / content codings the exchange
+    # happens to carry (an origin's RFC 3230 Digest in a b1 exchange, a left-over MI-Draft2 in a b3 one, both, in any spelling, empty)
+    ops += integrity_name_ops(w)
     for name in [b'content-type', b'Content-Type', b'x_a', b'a b', b':status', b'', b'ETag', b'x-\xc3\xa9', b'WWW-Authenticate', b'a--b', b'-a', b"a'b", b'a(b']:
         ops.append(f'http.canon {hexs(name)}')
     for _ in range(300):
@@ -113,6 +190,7 @@ def run(ctx):
             rr.append(f'sxg.reread {what} {f} {" ".join(b)}')
             rr.append(f'sxg.reuse {what} {" ".join(e0)} {" ".join(b)}')
     ctx.both(rr)
+    chain_stage(ctx)
     # signing with real keys (every second call of a process on a Signer that has signed before): header = model's header for the
     # signature it carries, signature verifies under the certificate over the model's message
     date8, exp8 = 1517418800, 1517418800 + 3600
@@ -125,6 +203,11 @@ def run(ctx):
             k = ks8[i % len(ks8)]
             sops.append(f'sxg.sign {exs(e)} 16 {k["cert"]} {k["key"]} {hexs(cu8)} {hexs(vu8)} {date8} {exp8}')
             smeta.append(k)
+    for ver in VERS:      # exchanges that carry a digest header of ANOTHER scheme as well (MiEncodePayload adds the version's own)
+        for rs in ([(b'Digest', [DIGVALS[0]])] if ver == 'b1' else [(b'Mi-Draft2', [DIGVALS[2]])], [(b'Want-Digest', [b'sha-256'])]):
+            e = ex(ver, b'https://example.com/', b'GET', [], 200, [(b'Content-Type', [b'text/html'])] + rs, b'', b'payload of sixteen+')
+            sops.append(f'sxg.sign {exs(e)} 16 {ks8[0]["cert"]} {ks8[0]["key"]} {hexs(cu8)} {hexs(vu8)} {date8} {exp8}')
+            smeta.append(ks8[0])
     sres = ctx.go(sops)
     signed8 = [(parse_ex(r), k) for r, k in zip(sres, smeta) if r and parse_ex(r)]
     signed_checks(ctx, signed8, cu8, vu8, date8, exp8, 'c08')
